@@ -4,6 +4,7 @@ CONSTANTS
   Codecs = {"h264", "h265", "mpeg4", "av1"}
   MaxAUs = 1
   MaxNALs = 3
+  MaxNALs265 = 3
   EmitLen = 1
 INVARIANTS DesignAgrees EmitCases
 CHECK_DEADLOCK FALSE
